@@ -55,6 +55,7 @@ PROPS["C09"] = {
     "props": "Props/C09.v",
     "probes": [{"file": "Probes/Token.v", "filter": lambda name: name.startswith("C07.reads_") or name.startswith("C07.display_")}],
     "suites": [("hist", 800, 20000), ("reader", 600, 12000)],
+    "extra": [extras.big_families],
     "assumptions": ["event values are in range (isotope/map below 1000, ring number below 100): guaranteed by the feature types' constructors (C18)"],
 }
 
@@ -77,7 +78,8 @@ PROPS["C11"] = {
 PROPS["C12"] = {
     "deps": ["Proofs/C12_Final.vo", "Proofs/DfsOrderClosed.vo"],
     "props": "Props/C12.v",
-    "suites": [("walk", 1000, 30000)],
+    "suites": [("walk", 1000, 30000), ("pool", 300, 6000)],
+    "owner": lambda name: name.startswith("C12.") or name in ("C13.pool_smallest_free", "C13.walk_joins_smallest_free"),
     "assumptions": ["kinds outside C06's known class (invert_configuration unimplemented) and at most 99 closures open, i.e. the traversal returns Ok"],
 }
 PROPS["C03"] = {
@@ -91,8 +93,9 @@ PROPS["C03"] = {
 PROPS["C01"] = {
     "deps": ["Proofs/C01.vo", "Proofs/C09_Final.vo", "Proofs/C01_Text.vo"],
     "props": "Props/C01.v",
-    "suites": [("walk", 1000, 30000), ("reader", 600, 12000), ("hist", 400, 8000)],
-    "owner": lambda name: name.startswith("C01.") or name in ("C12.rebuilt_graph_is_arrival_first", "C02.built_graph_is_denotation", "C09.history_inverse", "C13.walk_joins_smallest_free"),
+    "suites": [("walk", 1000, 30000), ("reader", 600, 12000), ("hist", 400, 8000), ("pool", 300, 6000)],
+    "extra": [extras.big_families],
+    "owner": lambda name: name.startswith("C01.") or name in ("C12.rebuilt_graph_is_arrival_first", "C02.built_graph_is_denotation", "C09.history_inverse", "C13.walk_joins_smallest_free", "C13.pool_smallest_free"),
     "assumptions": ["kinds outside C06's known class, at most 99 closures open, isotope/map below 1000 (C18)"],
 }
 
